@@ -109,4 +109,18 @@ theorem run_linearizes (sched : List Ev) : ∀ c : Cfg σ ε,
       · show (Cfg.run (c.step ev) rest).store = _
         rw [hlog, h]; rfl
 
+theorem run_calls (sched : List Ev) : ∀ c : Cfg σ ε, ∀ x ∈ (c.run sched).calls, x ∈ c.calls := by
+  induction sched with
+  | nil => intro c x hx; exact hx
+  | cons ev rest ih => intro c x hx; exact step_calls c ev x (ih (c.step ev) x hx)
+
+omit [DecidableEq σ] in
+/-- the calls of an initial configuration are those of the programs -/
+theorem init_calls (store : σ) (now : Int) (progs : List (List (Call σ ε))) :
+    ∀ x ∈ (⟨store, now, progs.map Thread.ofCalls⟩ : Cfg σ ε).calls, ∃ cs ∈ progs, x ∈ cs := by
+  intro x hx
+  obtain ⟨th, hth, hx⟩ := List.mem_flatMap.mp hx
+  obtain ⟨cs, hcs, rfl⟩ := List.mem_map.mp hth
+  exact ⟨cs, hcs, by simpa [Thread.calls, Thread.ofCalls] using hx⟩
+
 end ScVerif.C20.Gau
